@@ -201,9 +201,23 @@ func checkBytes(c *codec, b []byte, rep *report) {
 			rep.fail(c.name+"-hash-reencode", "hash changes across re-encoding: %s vs %s, b=%s", h, h2, trunc(hx.Hex(b), 200))
 		}
 	}
+	if c.extra != nil {
+		func() {
+			defer func() {
+				if r := recover(); r != nil {
+					rep.fail(c.name+"-extra-panic", "additional check panicked: %v", r)
+				}
+			}()
+			c.extra(v, rep)
+		}()
+	}
 	// JSON form
 	if c.jsonRT != nil && (c.jsonOK == nil || c.jsonOK(v)) {
 		v3, err := safeJSON(c, v)
+		if err == errNoJSON {
+			rep.count("json:no-json-form")
+			return
+		}
 		if err != nil {
 			key := c.name + "-json-roundtrip"
 			if _, isPanic := err.(panicErr); isPanic {
